@@ -81,6 +81,31 @@ Theorem context_window :
 Proof. exact context_window_proof. Qed.
 Print Assumptions context_window.
 
+(* "A context made of that line": when no U+2028/U+2029 follows the offset before the next \n or \r, a line
+   (delimited by the five break kinds) of at most 60 characters is printed exactly and in full. *)
+Theorem context_whole_line_partial :
+  forall (graphic : Z -> bool) cps off pre cur post line col ctx,
+    Forall cp_ok cps -> located cps off pre cur post ->
+    position graphic (bytes cps) off = Done (line, col, ctx) ->
+    existsb (fun c => (snd c =? 8232) || (snd c =? 8233)) (line_rest (cur ++ post)) = false ->
+    len (whole_line pre cur post) <= 60 ->
+    exists n, ctx = pad_left 5 (fmt_d line) ++ [58; 32] ++ map (disp graphic) (whole_line pre cur post)
+                      ++ [10] ++ repeat 32 n ++ [94].
+Proof. exact context_whole_line_proof. Qed.
+Print Assumptions context_whole_line_partial.
+
+(* Without that hypothesis the clause is false: Position counts U+2028/U+2029 as breaks but positionContext
+   does not end the line there.  Witness "a", U+2028, "b" at offset 0: the context of line 1 is "a·b". *)
+Theorem context_whole_line_refuted :
+  exists graphic cps off pre cur post line col ctx,
+    Forall cp_ok cps /\ located cps off pre cur post /\
+    position graphic (bytes cps) off = Done (line, col, ctx) /\
+    len (whole_line pre cur post) <= 60 /\
+    forall n, ctx <> pad_left 5 (fmt_d line) ++ [58; 32] ++ map (disp graphic) (whole_line pre cur post)
+                       ++ [10] ++ repeat 32 n ++ [94].
+Proof. exact context_whole_line_refuted_proof. Qed.
+Print Assumptions context_whole_line_refuted.
+
 (* For all byte strings and offsets: between "%5d: " and the end of the first line there are at most 60
    characters (ellipses included), and every shown character is graphic or U+00B7. *)
 Theorem context_length :
